@@ -82,3 +82,10 @@ for _pid, _title in (("C05", "Every request gets one complete, well-formed respo
     p["rule"] += _SYSC_RULE
     p["trusted_base"] += _SYS_TB
     p["trivial_labels"] = list(p.get("trivial_labels", [])) + ["no-origin", "unparsed"]
+
+# C08 in schedules: a request coalesced behind a revalidation must not be handed the expired entry
+p = _ensure("C08", "Stored responses are served only while fresh, and then without origin traffic")
+p["streams"] += [S("sched", 300, 4000, 4)]
+p["rule"] += " | sched: the schedule replay of C12/C13 (model-chosen interleavings with expiry and failing/uncacheable revalidations on the real goroutines); oracle: no client is served an expired entry (the scripted origin grants no stale allowance)"
+p["modules"] += ["RrProofs.Props.C12"]
+p["theorems"] += [T("Props.C12.lock_mutex", "full", "interleaving model: mutual exclusion of the writer section (the concurrent half of C08: a revalidation holds the key)")]
